@@ -121,6 +121,8 @@ func refProject(internal doc.Doc, did string, o c19Opts) map[string]interface{} 
 				}
 			} else if b, ok := km["publicKeyBase58"].(string); ok && b != "" {
 				vm["publicKeyBase58"] = b
+			} else if _, has := km["publicKeyMultibase"]; !has {
+				vm["publicKeyJwk"] = nil // no key material: the library represents this as a null JWK (absent would be as good)
 			}
 			vms = append(vms, vm)
 			c := c19KeyCtx[typ]
@@ -272,6 +274,21 @@ func c19(r *hx.Run) {
 	for i, a := range sub {
 		for j, b := range sub {
 			docs = append(docs, docCase{fmt.Sprintf("keys%d,%d", i, j), doc.Doc{"publicKey": []interface{}{clone(a, "ka"), clone(b, "kb")}, "service": []interface{}{clone(svcVars[0], "")}}})
+		}
+	}
+	// a key WITHOUT key material (not producible by accepted operations, but a legal input of the transformer): it is listed with an
+	// absent / null JWK wherever it stands - never with a neighbour's material
+	{
+		bare := func(id string) map[string]interface{} {
+			return map[string]interface{}{"id": id, "type": "JsonWebKey2020", "purposes": []interface{}{"authentication"}}
+		}
+		withMat := []map[string]interface{}{keyVars[0], keyVars[len(keyVars)/2], keyVars[len(keyVars)-1]}
+		docs = append(docs, docCase{"bare-key|alone", doc.Doc{"publicKey": []interface{}{bare("kb")}}})
+		for i, k := range withMat {
+			docs = append(docs,
+				docCase{fmt.Sprintf("bare-key|after|%d", i), doc.Doc{"publicKey": []interface{}{clone(k, "ka"), bare("kb")}}},
+				docCase{fmt.Sprintf("bare-key|before|%d", i), doc.Doc{"publicKey": []interface{}{bare("kb"), clone(k, "ka")}}},
+				docCase{fmt.Sprintf("bare-key|between|%d", i), doc.Doc{"publicKey": []interface{}{clone(k, "ka"), bare("kb"), clone(withMat[(i+1)%3], "kc"), bare("kd")}}})
 		}
 	}
 	// purpose multiplicity: a purpose may be repeated in a key's list (the validator only limits the list to five allowed
